@@ -146,6 +146,7 @@ func rulesC05(c *Ctx) {
 	readVerbatimRule(c, "C05.readverbatim")
 	runeFaceRule(c, "C05.runeface")
 	identQuoteRule(c, "C05.identquote")
+	errPosRule(c, "C05.errpos")
 	stringEndRule(c, "C05.strend")
 	eofMarkerRule(c, "C05.eofmarker")
 	// scanning terminates: the comment skippers end at end of input
@@ -1422,4 +1423,55 @@ func identQuoteRule(c *Ctx, rule string) {
 		}
 	}
 	c.Floor(rule, n, 1)
+}
+
+// errPosRule: every parse error carries the position of a token.
+func errPosRule(c *Ctx, rule string) {
+	p := c.P
+	c.Rule(rule, "every ParseError the parser builds sets its Pos field (newParseError takes it as an argument): an error built without it is reported at line 1, char 1 whatever line the offending token is on")
+	n := 0
+	for _, fb := range p.funcBodies() {
+		if fb.Lit != nil || !parserTypes[recvTypeName(fb.Decl)] {
+			continue // (literals inside closures are seen from the enclosing function)
+		}
+		fb := fb
+		k := 0
+		ast.Inspect(fb.Body, func(nd ast.Node) bool {
+			cl, ok := nd.(*ast.CompositeLit)
+			if !ok || p.TypeStr(p.Info.TypeOf(cl)) != "ParseError" {
+				return true
+			}
+			n++
+			k++
+			hasPos := false
+			msg := ""
+			for _, el := range cl.Elts {
+				if kv, ok := el.(*ast.KeyValueExpr); ok {
+					if id, ok := kv.Key.(*ast.Ident); ok {
+						if id.Name == "Pos" {
+							hasPos = true
+						}
+						if id.Name == "Message" {
+							if tv := p.Info.Types[kv.Value]; tv.Value != nil {
+								msg = constant.StringVal(tv.Value)
+							}
+						}
+					}
+				} else {
+					hasPos = true // positional literal sets every field
+				}
+			}
+			key := fmt.Sprintf("%s: ParseError #%d", fb.Name, k)
+			if msg != "" {
+				key = fmt.Sprintf("%s: ParseError %q", fb.Name, msg)
+			}
+			if hasPos {
+				c.OK(rule, key, cl.Pos(), "Pos set")
+			} else {
+				c.Bad(rule, key, cl.Pos(), "built without a position: reported at line 1, char 1")
+			}
+			return true
+		})
+	}
+	c.Floor(rule, n, 15)
 }
